@@ -74,6 +74,7 @@ func c08(c *Ctx) {
 	c08CompareAddr(c)
 	c08TimeoutConn(c)
 	c08ReadKeepsRemainder(c)
+	c08ListenerOwnVariables(c)
 }
 
 func c08Selector(c *Ctx, find, peek *ssa.Function, peekT *types.Named) {
